@@ -20,6 +20,24 @@ func keyFloat(k int64) float64 {
 	return math.Float64frombits(uint64(k))
 }
 
+// domKeyTok is the protocol token of one component: the integer key of the monotone map, except that negative
+// zero travels as `-0` (the Lean driver reads it as 0; a replay rebuilds -0.0, so a defect that tells the two
+// zeros apart replays as found).
+func domKeyTok(f float64) string {
+	if f == 0 && math.Signbit(f) {
+		return "-0"
+	}
+	return strconv.FormatInt(floatKey(f), 10)
+}
+
+func domTokFloat(tok string) float64 {
+	if tok == "-0" {
+		return math.Copysign(0, -1)
+	}
+	k, _ := strconv.ParseInt(tok, 10, 64)
+	return keyFloat(k)
+}
+
 func vecOf(fs []float64) *dominance.Float64Vector {
 	v := dominance.Float64Vector(append([]float64(nil), fs...))
 	return &v
@@ -31,13 +49,55 @@ func domOpLine(x, y []float64) string {
 	sb.WriteString(strconv.Itoa(len(x)))
 	for _, f := range x {
 		sb.WriteByte(' ')
-		sb.WriteString(strconv.FormatInt(floatKey(f), 10))
+		sb.WriteString(domKeyTok(f))
 	}
 	for _, f := range y {
 		sb.WriteByte(' ')
-		sb.WriteString(strconv.FormatInt(floatKey(f), 10))
+		sb.WriteString(domKeyTok(f))
 	}
 	return sb.String()
+}
+
+// foreignCandidate is a dominance.Candidate that is not a Float64Vector (IsComparable must answer false for it).
+type foreignCandidate struct{}
+
+func (foreignCandidate) IsComparable(dominance.Candidate) bool       { return false }
+func (foreignCandidate) Dominates(dominance.Candidate) bool          { return false }
+func (foreignCandidate) IsDominatedBy(dominance.Candidate) bool      { return false }
+func (foreignCandidate) NoDominancePresent(dominance.Candidate) bool { return true }
+
+// cmpPair: IsComparable on vectors of any two lengths (`cmp dx dy x.. y..` -> 0|1); the other operations are
+// defined for equal lengths only (Dominates indexes the argument with the receiver's range).
+func cmpPair(c *Ctx, x, y []float64) {
+	var sb strings.Builder
+	fmt.Fprintf(&sb, "cmp %d %d", len(x), len(y))
+	for _, f := range append(append([]float64(nil), x...), y...) {
+		sb.WriteByte(' ')
+		sb.WriteString(domKeyTok(f))
+	}
+	op := sb.String()
+	vx, vy := vecOf(x), vecOf(y)
+	var got, back, foreign bool
+	if p := protect(func() {
+		got = vx.IsComparable(vy)
+		back = vy.IsComparable(vx)
+		foreign = vx.IsComparable(foreignCandidate{})
+	}); p != "" {
+		c.Op(op, "panic")
+		c.Fail("no-panic", "dominance:panic", p, []string{op})
+		return
+	}
+	c.Op(op, b2s(got))
+	if got != (len(x) == len(y)) || back != got {
+		c.Fail("comparable-iff-same-length", "dominance:comparable", fmt.Sprintf("lengths %d and %d: IsComparable = %v / %v", len(x), len(y), got, back), []string{op})
+	}
+	if foreign {
+		c.Fail("comparable-iff-same-length", "dominance:comparable-foreign", "a Candidate of another type was called comparable", []string{op})
+	}
+	c.Stat(fmt.Sprintf("cmp equal-length=%v", len(x) == len(y)))
+	if len(x) != len(y) {
+		c.Nontrivial(fmt.Sprintf("cmp %d %d", len(x), len(y)))
+	}
 }
 
 // refDominates is the property's own statement, evaluated with Go's operators.
@@ -148,17 +208,29 @@ func suiteDominance(c *Ctx) {
 	if c.Replay != "" {
 		for _, l := range readLines(c.Replay) {
 			w := strings.Fields(l)
+			if len(w) >= 3 && w[0] == "cmp" {
+				dx, _ := strconv.Atoi(w[1])
+				dy, _ := strconv.Atoi(w[2])
+				if dx < 0 || dy < 0 || len(w) != 3+dx+dy {
+					continue
+				}
+				fs := make([]float64, dx+dy)
+				for i := range fs {
+					fs[i] = domTokFloat(w[3+i])
+				}
+				cmpPair(c, fs[:dx], fs[dx:])
+				continue
+			}
 			if len(w) < 2 || w[0] != "dom" {
 				continue
 			}
 			d, _ := strconv.Atoi(w[1])
-			if len(w) != 2+2*d {
+			if d < 0 || len(w) != 2+2*d {
 				continue
 			}
 			fs := make([]float64, 2*d)
 			for i := range fs {
-				k, _ := strconv.ParseInt(w[2+i], 10, 64)
-				fs[i] = keyFloat(k)
+				fs[i] = domTokFloat(w[2+i])
 			}
 			domPair(c, fs[:d], fs[d:], "replay")
 		}
@@ -166,7 +238,7 @@ func suiteDominance(c *Ctx) {
 	}
 	// 1. exhaustive pairs over a small grid incl. signed zeros
 	grid := []float64{-1, math.Copysign(0, -1), 0, 1, 2}
-	maxD := c.N(3, 4)
+	maxD := 4
 	for d := 1; d <= maxD; d++ {
 		n := 1
 		for i := 0; i < 2*d; i++ {
@@ -180,6 +252,79 @@ func suiteDominance(c *Ctx) {
 				k /= len(grid)
 			}
 			domPair(c, fs[:d], fs[d:], "grid")
+		}
+	}
+	// 1b. exhaustive TRIPLES over the same grid (d <= 2 quick, d <= 3 thorough): transitivity, asymmetry, irreflexivity and
+	// the converse evaluated directly on the implementation for every (x, y, z); the pairs themselves are compared
+	// with the model above, so only the chains found are written as protocol lines
+	maxT := c.N(2, 3)
+	for d := 1; d <= maxT; d++ {
+		n := 1
+		for i := 0; i < d; i++ {
+			n *= len(grid)
+		}
+		vecs := make([][]float64, n)
+		for code := range vecs {
+			v := make([]float64, d)
+			k := code
+			for i := range v {
+				v[i] = grid[k%len(grid)]
+				k /= len(grid)
+			}
+			vecs[code] = v
+		}
+		dom := make([][]bool, n)
+		for i := range dom {
+			dom[i] = make([]bool, n)
+			for j := range dom[i] {
+				dom[i][j] = vecOf(vecs[i]).Dominates(vecOf(vecs[j]))
+			}
+		}
+		chains := 0
+		for i := 0; i < n; i++ {
+			if dom[i][i] {
+				c.Fail("irreflexive", "dominance:irreflexive", fmt.Sprintf("%v", vecs[i]), []string{domOpLine(vecs[i], vecs[i])})
+			}
+			for j := 0; j < n; j++ {
+				if dom[i][j] && dom[j][i] {
+					c.Fail("asymmetric", "dominance:asymmetric", fmt.Sprintf("%v and %v dominate each other", vecs[i], vecs[j]), []string{domOpLine(vecs[i], vecs[j]), domOpLine(vecs[j], vecs[i])})
+				}
+				if vecOf(vecs[i]).IsDominatedBy(vecOf(vecs[j])) != dom[j][i] {
+					c.Fail("converse", "dominance:converse", fmt.Sprintf("IsDominatedBy(%v,%v)", vecs[i], vecs[j]), []string{domOpLine(vecs[i], vecs[j])})
+				}
+				if !dom[i][j] {
+					continue
+				}
+				for k := 0; k < n; k++ {
+					if !dom[j][k] {
+						continue
+					}
+					chains++
+					// fresh calls on fresh vectors for the conclusion (the table entry was computed from other objects)
+					if !dom[i][k] || !vecOf(vecs[i]).Dominates(vecOf(vecs[k])) {
+						c.Fail("transitive", "dominance:transitive", fmt.Sprintf("%v > %v > %v", vecs[i], vecs[j], vecs[k]),
+							[]string{domOpLine(vecs[i], vecs[j]), domOpLine(vecs[j], vecs[k]), domOpLine(vecs[i], vecs[k])})
+					}
+					if d <= 2 && chains%7 == 0 {
+						domPair(c, vecs[i], vecs[k], "grid-chain")
+					}
+				}
+			}
+		}
+		c.Stat(fmt.Sprintf("grid triples d=%d: all %d^3 triples, %d chains x>y>z", d, n, chains))
+		c.extra[fmt.Sprintf("exhaustive grid triples d=%d", d)] = fmt.Sprintf("%d triples, %d chains", n*n*n, chains)
+	}
+	// 1c. IsComparable on every pair of lengths 0..6 (and random longer ones below)
+	for dx := 0; dx <= 6; dx++ {
+		for dy := 0; dy <= 6; dy++ {
+			x, y := make([]float64, dx), make([]float64, dy)
+			for i := range x {
+				x[i] = grid[(i+dx)%len(grid)]
+			}
+			for i := range y {
+				y[i] = grid[(i+2*dy)%len(grid)]
+			}
+			cmpPair(c, x, y)
 		}
 	}
 	// 2. random pairs and triples, dimension 1..8, tie-heavy
@@ -208,13 +353,13 @@ func suiteDominance(c *Ctx) {
 		case 0: // y = x with some components raised, z = y raised again: chains
 			y = append([]float64(nil), x...)
 			for i := range y {
-				if r.Chance(0.4) {
+				if r.Chance(0.4) && y[i] < math.MaxFloat64 { // stay finite: the property speaks of finite vectors
 					y[i] = math.Nextafter(y[i], math.Inf(1))
 				}
 			}
 			z = append([]float64(nil), y...)
 			for i := range z {
-				if r.Chance(0.4) {
+				if r.Chance(0.4) && z[i] < math.MaxFloat64 {
 					z[i] = math.Nextafter(z[i], math.Inf(1))
 				}
 			}
@@ -225,6 +370,13 @@ func suiteDominance(c *Ctx) {
 		domPair(c, y, z, "rand")
 		domPair(c, x, z, "rand")
 		domPair(c, x, x, "self")
+		if t%8 == 0 { // unequal (and equal) lengths for IsComparable
+			w := make([]float64, r.Intn(12))
+			for i := range w {
+				w[i] = randFloat(r)
+			}
+			cmpPair(c, x, w)
+		}
 		// transitivity and irreflexivity on the implementation
 		vx, vy, vz := vecOf(x), vecOf(y), vecOf(z)
 		if vx.Dominates(vy) && vy.Dominates(vz) {
